@@ -879,7 +879,7 @@ struct BatchStats {
     first_use_contended: [[u64; N_SLOTS]; 2],
     constructed: [[u64; N_SLOTS]; 2],
     policy_runs: [u64; 5],
-    op_kind_runs: [u64; 15],
+    op_kind_runs: [u64; 16],
     threads_hist: [u64; MAX_TASKS],
     log_digest: u64,
     /// wrapping sum of per-scenario digests: independent of how scenarios are spread over workers
